@@ -349,6 +349,13 @@ def inspect : Val → List Char
   | .int n => intStr n
   | .str id => ['"', 's'] ++ natStr id ++ ['"']
 
+/-- The text `@debug` and `@warn` hand to the Logger (visitor.rs `visit_debug_rule` /
+    `visit_warn_rule`, as repaired): a string is logged as its text, WITHOUT quotes; every other
+    value as `inspect` / `to_css_string` prints it.  `@error` keeps `inspect` (with quotes). -/
+def logText : Val → List Char
+  | .int n => intStr n
+  | .str id => ['s'] ++ natStr id
+
 abbrev Env := List (Nat × Val)
 
 def lookupVar (env : Env) (x : Nat) : Option Val := (env.find? (·.1 == x)).map (·.2)
@@ -413,7 +420,7 @@ def execStmt (cfg : Cfg) (prog : List Stmts) : Nat → Nat → Env → Stmt → 
       if cfg.quiet then .ok () (st.doDebug cfg file line [])
       else
         match evalExpr cfg prog fuel file line env e st with
-        | .ok v st1 => .ok () (st1.doDebug cfg file line (inspect v))
+        | .ok v st1 => .ok () (st1.doDebug cfg file line (logText v))
         | .err e st1 => .err e st1
         | .outOfFuel => .outOfFuel
         | .unsupported => .unsupported
@@ -421,7 +428,7 @@ def execStmt (cfg : Cfg) (prog : List Stmts) : Nat → Nat → Env → Stmt → 
       if cfg.warnDedupBySpan && st.emitted.contains (file, line) then .ok () (st.skipWarn file line)
       else
         match evalExpr cfg prog fuel file line env e st with
-        | .ok v st1 => .ok () (st1.doWarn cfg file line (inspect v))
+        | .ok v st1 => .ok () (st1.doWarn cfg file line (logText v))
         | .err e st1 => .err e st1
         | .outOfFuel => .outOfFuel
         | .unsupported => .unsupported
